@@ -247,6 +247,9 @@ def PeerEvent.within (adv : Limits) : PeerEvent → Prop
       | some t => ms < t
       | none => True
 
+instance (adv : Limits) (ev : PeerEvent) : Decidable (ev.within adv) := by
+  cases ev <;> simp only [PeerEvent.within] <;> first | exact inferInstance | (split <;> exact inferInstance)
+
 /-- does the client's check fire (a locally generated error / a local close)?
     stream: `offset > receiveWindow` (stream_flow_controller.go); connection: `highestReceived > receiveWindow`;
     streams: `id > maxStream`, i.e. `num > maxNumStreams` before any stream was closed (streams_map_incoming.go);
